@@ -202,7 +202,10 @@ PLANS = {
 }
 PLANS["C17"] = [stage("dbg", "C17"), stage("rel", "C17")]
 ASAN_ENV = {"ASAN_OPTIONS": "detect_leaks=0:abort_on_error=1:halt_on_error=1:allocator_may_return_null=0:max_allocation_size_mb=4096",
-            "RSV_UNSAFE_MODE": "2"}
+            "RSV_UNSAFE_MODE": "2",
+            # the cache-slot peek monitor keeps clones of cached maps alive, which would
+            # hide a use after free from the sanitizer: off in sanitizer runs
+            "RSV_NO_PEEK": "1"}
 TSAN_ENV = {"TSAN_OPTIONS": "halt_on_error=1:exitcode=66:second_deadlock_stack=1"}
 PLANS["C18"] = [
     stage("dbg", "C18"),
@@ -215,6 +218,10 @@ PLANS["C19"] = [
     stage("dbg", "C19", require_all_unsafe_sites=True),
     stage("asan", "C19", env=ASAN_ENV, cases={"quick": 20000, "thorough": 300000}),
     stage("miri", "C19M"),
+    # "concurrent use as in C18": lifetime-extended borrows under schedules
+    stage("asan", "C18", env=ASAN_ENV, cases={"quick": 480, "thorough": 8000}),
+    stage("asan", "C18S", env=ASAN_ENV, cases={"quick": 480, "thorough": 8000}),
+    stage("miri", "C18M", cases={"quick": 64, "thorough": 1600}),
 ]
 for _p in ("C01", "C02", "C03", "C04", "C05", "C06", "C07", "C08", "C09", "C10", "C11", "C12", "C13", "C14", "C15", "C16", "C20"):
     PLANS[_p] = [stage("dbg", _p)]
@@ -292,6 +299,11 @@ def run_worker_stage(binary, st, prop, tier, seed, outdir):
                 tail = (c.stderr or "")[-600:]
             except subprocess.TimeoutExpired:
                 died, tail = True, "no result within 1800 s when run alone (hang)"
+            if died and "C18-SCHEDULER-TIMEOUT" in ((p.stderr or "") + tail) and "C18-DEADLOCK" not in ((p.stderr or "") + tail):
+                # a managed thread blocked for real on a lock that no probe announced:
+                # the scheduler cannot decide this case (wall-clock watchdog => inconclusive)
+                return None, (f"shard {i}: scheduler watchdog fired on case {idx} (a thread blocks on a lock "
+                              f"that is not announced by a probe); replay={rp}")
             if died:
                 doc = json.load(open(rp))
                 doc["profile"] = st["profile"]
